@@ -28,6 +28,14 @@ idioms in CC/Model/PortBase.lean, namespace CC.Py):
                                    helper is CALLED (Python closures read the variable at call time)
 CC/Properties/C06Gen.lean proves the generated definitions equal to the hand-written model
 CC/Model/Port.lean.  Anything else in the two functions raises ExtractError.
+
+Also into `Gen/Port.lean`: `open_circuit_voltage` and `short_circuit_current` of
+Network/NodalAnalysis/bias_point_analysis.py (PortGen.bias; idioms in CC/Model/PortBase2.lean):
+  solution = NodalAnalysisBiasPointSolution(network)   the object is (network, Solution.solution_vector solve anyNan network) of Gen/Core.lean
+  solution.get_potential(node_id=…)                    Solution.get_potential of Gen/Core.lean
+  return <integer literal>                             Py.Scalar.pyInt        return phi1 - phi2 (two get_potential results)   Py.Scalar.npy
+  V / Z  (V from open_circuit_voltage, Z from open_circuit_impedance)          Py.divScalar  (ZeroDivisionError / NonFinite / V/inf = 0)
+CC/Properties/C06Gen2.lean proves them equal to Net.openCircuitVoltage / Net.shortCircuitCurrent.
 """
 from __future__ import annotations
 import ast, copy
@@ -121,9 +129,18 @@ end CC.Gen
 # -------------------------------------------------------------------------------------------
 
 F_NA = core.F_NA
+F_BP = core.F_BP
 F_TRF = trfm.F_TRF
 
 MASK = ('list', 'bool')          # a boolean ndarray
+
+# kind 'scalar': a returned number with its run-time class (Py.Scalar of CC/Model/PortBase2.lean)
+_core_lean_ty = core.lean_ty
+def _lean_ty(t):
+    if t == 'scalar': return 'Py.Scalar K'
+    if isinstance(t, tuple) and t[0] == 'sol': raise extract.ExtractError('a solution object is used as a value (outside the grammar)')
+    return _core_lean_ty(t)
+core.lean_ty = _lean_ty
 
 # nested helpers of open_circuit_impedance the translator knows the parameter kinds of
 # (both `str` parameters of `isolated` are node labels)
@@ -138,8 +155,36 @@ class PortTr(core.Tr):
         return super().bind(code, stem, None)
 
     # ---- expressions
+    def ex(self, e):
+        # V / Z for a returned number V (with its class) and the value Z of open_circuit_impedance
+        if isinstance(e, ast.BinOp) and isinstance(e.left, ast.Name) and e.left.id in self.env and self.env[e.left.id][1] == 'scalar':
+            if not (isinstance(e.op, ast.Div) and isinstance(e.right, ast.Name) and e.right.id in self.env and self.env[e.right.id][1] == 'xval'):
+                self.no(e, 'arithmetic with the result of open_circuit_voltage outside the grammar (only V / Z with Z the result of open_circuit_impedance)')
+            return (self.bind(f'Py.divScalar {self.env[e.left.id][0]} {self.env[e.right.id][0]}', 'q'), 'num')
+        return super().ex(e)
+
+    def emit_ret(self, e):
+        if self.want == 'scalar':
+            if isinstance(e, ast.Constant) and isinstance(e.value, int) and not isinstance(e.value, bool):
+                v, k = self.ex(e)
+                self.lines.append(f'RET Py.Scalar.pyInt {v}'); return
+            if isinstance(e, ast.BinOp) and isinstance(e.op, (ast.Sub, ast.Add)) and all(
+                    isinstance(x, ast.Name) and x.id in self.potentials for x in (e.left, e.right)):
+                v, k = self.ex(e)
+                if k != 'num': self.no(e, f'returns a {k}')
+                self.lines.append(f'RET Py.Scalar.npy {v}'); return
+            self.no(e, 'return value outside the grammar (an integer literal, or a sum / difference of two get_potential results)')
+        return super().emit_ret(e)
+
+    potentials = frozenset()
+
     def call(self, e):
         f = e.func
+        if isinstance(f, ast.Attribute) and isinstance(f.value, ast.Name) and f.value.id in self.env \
+                and isinstance(self.env[f.value.id][1], tuple) and self.env[f.value.id][1][0] == 'sol':
+            x, (_, net) = self.env[f.value.id]
+            if f.attr not in self.g.sol_methods: self.no(e, f'solution.{f.attr}(…) outside the grammar')
+            return self.apply(self.g.sol_methods[f.attr], e, e.args, prefix=f'{net} {x}')
         if isinstance(f, ast.Name):
             n = f.id
             if n == 'any' and n not in self.env and len(e.args) == 1 and not e.keywords:
@@ -259,7 +304,33 @@ class PortTr(core.Tr):
             if isinstance(s, ast.Assign) and len(s.targets) == 1 and isinstance(s.targets[0], ast.Subscript):
                 self.set_item(s)
                 return self.block(rest)
+            if isinstance(s, ast.Assign) and len(s.targets) == 1 and isinstance(s.targets[0], ast.Name):
+                v, n = s.value, s.targets[0].id
+                if isinstance(v, ast.Call) and isinstance(v.func, ast.Name) and v.func.id == 'NodalAnalysisBiasPointSolution' \
+                        and v.func.id not in self.env:
+                    self.new_solution(s)
+                    return self.block(rest)
+                self.potentials = self.potentials - {n}
+                if isinstance(v, ast.Call) and isinstance(v.func, ast.Attribute) and v.func.attr == 'get_potential' \
+                        and isinstance(v.func.value, ast.Name) and v.func.value.id in self.env \
+                        and isinstance(self.env[v.func.value.id][1], tuple) and self.env[v.func.value.id][1][0] == 'sol':
+                    self.potentials = self.potentials | {n}
         return super().block(stmts)
+
+    def new_solution(self, s):
+        """`solution = NodalAnalysisBiasPointSolution(network)`: the object is (network, solution vector); the vector is
+        `Solution.solution_vector` of Gen/Core.lean (the class's `__post_init__`, default mappers)"""
+        if not getattr(self.g, 'allow_solution', False): self.no(s, 'NodalAnalysisBiasPointSolution(…) outside the grammar here')
+        v, n = s.value, s.targets[0].id
+        if len(v.args) != 1 or v.keywords: self.no(s, 'NodalAnalysisBiasPointSolution(…) with other arguments than the network (mappers are fixed to their defaults)')
+        if n in self.env: self.no(s, f'{n!r} is bound before')
+        net, k = self.pure_ex(v.args[0], 'constructor argument')
+        if k != 'net': self.no(s, f'NodalAnalysisBiasPointSolution of a {k}')
+        self.lines.append(f'let {n}_network : Net L K := {net}')
+        self.lines.append(f'let {n} ← Solution.solution_vector solve anyNan {n}_network')
+        self.monadic = True
+        self.g.uses_solve = True
+        self.env[n] = (n, ('sol', f'{n}_network'))
 
     def cond_assign(self, s):
         """`if c: a, b = E1, E2`  /  `if c: a = E` for names bound before: the new values under c, the old ones otherwise"""
@@ -404,16 +475,72 @@ class PortGen(core.Gen):
         ms2 = self.mappers_of(F_NA, fe, len(PLAIN2))
         self.translate(F_NA, fe, 'element_impedance', PLAIN2, 'xval', mappers=ms2, prefix_binders=SOLVE, want_x=True, force_monadic=True,
                        doc=f'element_impedance (node_analysis.py:{fe.lineno})')
+        self.bias()
         body = self.out
         head = ['/- GENERATED by harness/extract_port.py from `open_circuit_impedance` and `element_impedance` of',
-                '   src/CircuitCalculator/Network/NodalAnalysis/node_analysis.py — do not edit.',
+                '   src/CircuitCalculator/Network/NodalAnalysis/node_analysis.py, `open_circuit_voltage` and `short_circuit_current`',
+                '   of src/CircuitCalculator/Network/NodalAnalysis/bias_point_analysis.py — do not edit.',
                 '   Idioms: CC/Model/CoreBase.lean, TransformersBase.lean, PortBase.lean (namespace CC.Py); the functions they',
                 '   call are the generated ones of CC/Gen/Core.lean and CC/Gen/Transformers.lean. -/',
-                'import CC.Gen.Transformers', 'import CC.Model.PortBase', 'set_option linter.unusedVariables false',
+                'import CC.Gen.Transformers', 'import CC.Model.PortBase', 'import CC.Model.PortBase2', 'set_option linter.unusedVariables false',
                 'namespace CC.Gen.Port', 'open CC CC.Gen.Core', '', 'section',
                 'variable {L K : Type} [DecidableEq L] [LabelOrd L]',
                 'variable [Zero K] [One K] [Add K] [Mul K] [Neg K] [Sub K] [Inv K] [Div K] [DecidableEq K]', '']
         return '\n'.join(head + body + ['end', '', 'end CC.Gen.Port']) + '\n'
+
+    def check_bias_imports(self):
+        """names the two functions of bias_point_analysis.py use: bound once, to what the translator reads them as"""
+        tb = self.trees[F_BP]
+        want = {'open_circuit_impedance': ('from', 'node_analysis', 'open_circuit_impedance', 1)}
+        defs = {'NodalAnalysisBiasPointSolution': 0, 'open_circuit_voltage': 0, 'short_circuit_current': 0}
+        have = {}
+        for st in tb.body:
+            if isinstance(st, ast.Import):
+                for a in st.names: have[a.asname or a.name] = ('import', a.name)
+            elif isinstance(st, ast.ImportFrom):
+                for a in st.names: have[a.asname or a.name] = ('from', st.module or '', a.name, st.level)
+            elif isinstance(st, (ast.FunctionDef, ast.ClassDef)):
+                if st.name in want: core.refuse(F_BP, st, f'{st.name} is redefined locally')
+                if st.name in defs: defs[st.name] += 1
+            elif isinstance(st, (ast.Assign, ast.AnnAssign, ast.AugAssign)):
+                for x in ast.walk(st):
+                    if isinstance(x, ast.Name) and isinstance(x.ctx, ast.Store) and (x.id in want or x.id in defs):
+                        core.refuse(F_BP, st, f'{x.id} is re-bound at module level')
+            else:
+                core.refuse(F_BP, st, f'top-level statement {type(st).__name__} outside the grammar')
+        for n, w in want.items():
+            if have.get(n) != w: core.refuse(F_BP, None, f'module name {n!r} is bound to {have.get(n)}, the translator reads it as {w}')
+        for n, c in defs.items():
+            if c != 1 or n in have: core.refuse(F_BP, None, f'{n} is bound {c} times / imported in bias_point_analysis.py')
+
+    def bias(self):
+        """open_circuit_voltage, short_circuit_current (bias_point_analysis.py)"""
+        self.check_bias_imports()
+        tb = self.trees[F_BP]
+        PLAIN = [('network', 'net'), ('node1', 'label'), ('node2', 'label')]
+        SOLVE = '(solve : Py.Mat K → List K → Option (List K)) (anyNan : List K → Bool)'
+        fds = {}
+        for name in ('open_circuit_voltage', 'short_circuit_current'):
+            fd = core.find(tb, name, ast.FunctionDef)
+            if fd is None: core.refuse(F_BP, tb, f'{name} not found')
+            self.sig(F_BP, fd, [p for p, _ in PLAIN])
+            if len(fd.args.args) != len(PLAIN) or fd.args.defaults or fd.args.kwonlyargs or fd.args.vararg or fd.args.kwarg or fd.decorator_list:
+                core.refuse(F_BP, fd, f'{name}: signature outside the grammar')
+            if any(isinstance(x, (ast.FunctionDef, ast.Lambda, ast.ClassDef, ast.Global, ast.Nonlocal)) for b in fd.body for x in ast.walk(b)):
+                core.refuse(F_BP, fd, f'{name}: nested definition')
+            fds[name] = fd
+        self.allow_solution = True
+        fd = fds['open_circuit_voltage']
+        f = self.translate(F_BP, fd, 'open_circuit_voltage', PLAIN, 'scalar', prefix_binders=SOLVE, force_monadic=True,
+                           doc=f'open_circuit_voltage (bias_point_analysis.py:{fd.lineno}): `NodalAnalysisBiasPointSolution(network)` is '
+                               f'`Solution.solution_vector` of Gen/Core.lean (`np.linalg.solve`, `np.any(np.isnan(·))` are the parameters '
+                               f'`solve`, `anyNan`); `return <integer literal>` is `Scalar.pyInt`, a difference of potentials `Scalar.npy`')
+        f.extra = 'solve anyNan'
+        self.allow_solution = False
+        self.fns['open_circuit_voltage'] = f
+        fd = fds['short_circuit_current']
+        self.translate(F_BP, fd, 'short_circuit_current', PLAIN, 'num', prefix_binders=SOLVE, force_monadic=True,
+                       doc=f'short_circuit_current (bias_point_analysis.py:{fd.lineno}): `V / Z` is `Py.divScalar`')
 
 @extract.generator('Port.lean')
 def gen_port(src: Path) -> str:
